@@ -495,7 +495,9 @@ func ParentMain(o Options) int {
 								continue
 							}
 							if time.Since(since) > limit {
-								if v, err := strconv.Atoi(cur); err == nil {
+								// the journal line is "<case>:<heartbeat>:<sub-case>"
+								if v, err := strconv.Atoi(strings.SplitN(cur, ":", 2)[0]); err == nil {
+									hungText = cur
 									atomic.StoreInt32(&hung, int32(v))
 								}
 								cmd.Process.Kill()
